@@ -78,12 +78,10 @@ macro_rules! width_prelude {
         pub fn is_floor_div(q: R, p: R, c: R) -> bool {
             q * c <= p && p - q * c < c
         }
-        /// `q == ceil(p / c)` stated multiplicatively: exact (q*c == p), or rounded up
-        /// ((q-1)*c < p < (q-1)*c + c).  Written with the operands `q` / `q-1` so that the products have the
-        /// same operands as the quotient-times-divisor product inside the solver's divider constraint.
+        /// `q == ceil(p / c)` stated multiplicatively: p <= q*c < p + c (c != 0).
         #[inline]
         pub fn is_ceil_div(q: R, p: R, c: R) -> bool {
-            c != 0 && (q * c == p || (q >= 1 && (q - 1) * c < p && p - (q - 1) * c < c))
+            q * c >= p && q * c - p < c
         }
     };
 }
